@@ -186,7 +186,11 @@ def contracts(p: Program, which: str = 'all') -> list[str]:
             "'_cancelled_task_ids', '_mailbox_counter', 'owned_mailboxes', "
             "'desired_box_id', 'wake_on_next', 'expected_num_results', "
             "'expecting_single_result')",
-            'nsent() == old(nsent())',
+            # the deposit happens inside the mailbox mutex, which is released
+            # on every path; nothing else is emitted
+            '''nsent() == old(nsent()) + 2
+               and eff_kind(old(nsent()), 'boxmutex.__enter__')
+               and eff_kind(old(nsent()) + 1, 'boxmutex.__exit__')''',
             # C12: a result for a dropped mailbox changes nothing
             '''implies(not (result.return_address.mailbox_index
                             in self._mailboxes),
@@ -239,7 +243,7 @@ def contracts(p: Program, which: str = 'all') -> list[str]:
         raises=[],
         modifies=[
             'WorkerMailbox.result', 'num_results', 'fresh_results',
-            'dest_addr', '_ready_task_ids',
+            'dest_addr', '_ready_task_ids', 'effects',
         ],
     ))
 
@@ -265,11 +269,17 @@ def contracts(p: Program, which: str = 'all') -> list[str]:
                      == task.return_address)''',
             '''implies(not box_ready(self._mailboxes[future.mailbox_id]),
                  unchanged('_ready_task_ids'))''',
+            # registered inside the mailbox mutex, released afterwards
+            '''nsent() == old(nsent()) + 2
+               and eff_kind(old(nsent()), 'boxmutex.__enter__')
+               and eff_kind(old(nsent()) + 1, 'boxmutex.__exit__')''',
         ],
         # C12: awaiting a cancelled future fails
         raises=['RuntimeError'],
         exc_ensures={'RuntimeError': [
             'not (future.mailbox_id in self._mailboxes)',
+            '''nsent() == old(nsent()) + 2
+               and eff_kind(nsent() - 1, 'boxmutex.__exit__')''',
             "unchanged('_mailboxes', '_tasks', '_ready_task_ids', "
             "'dest_addr', 'desired_box_id', 'wake_on_next')",
         ]},
@@ -507,8 +517,8 @@ def contracts(p: Program, which: str = 'all') -> list[str]:
                      RuntimeResult(task.return_address, result, self._id)))''',
             '''implies(old(task.return_address in self._tasks)
                  and task.return_address.worker_id == self._id,
-                 eff(old(nsent()), 'send', self._conn, RuntimeMessage.UPDATE,
-                     -1))''',
+                 eff(old(nsent()) + 2, 'send', self._conn,
+                     RuntimeMessage.UPDATE, -1))''',
             'not (task.return_address in self._tasks)',
             '''forall(lambda a: implies(a != task.return_address,
                  (a in self._tasks) == old(a in self._tasks)),
